@@ -154,9 +154,35 @@ def make_judge(col):
     return judge
 
 
+def handmade_leg(spec, col, n):
+    """Hand-shaped programs (vlib/handprog.py): shapes the analysis special-cases and the generator rarely produces."""
+    from vlib import handprog, hyp
+    lang = spec['lang']
+    judge = make_judge(col)
+
+    class Case:
+        pass
+
+    def one(x):
+        prog, labels = x
+        case = Case()
+        case.program, case.lang, case.seed, case.tape, case.mode, case.switches = prog, lang, 1, None, 'handmade', []
+        case.key = lambda: {'handmade': labels, 'lang': lang}
+        viols, nontriv, sample, k = judge(case)
+        col.case(key=('hand', k), nontrivial=nontriv, sample=lambda: {'lang': lang, 'handmade_units': labels})
+        col.feature('handmade_programs')
+        for lab in labels:
+            col.feature('handmade_unit:' + lab.split('/')[0])
+        for sig, d in viols:
+            col.violation(sig + '/handmade:' + '+'.join(sorted({l.split('/')[0] for l in labels})),
+                          dict(d, units=labels), {'handmade': labels, 'lang': lang, 'note': 'see vlib/handprog.py'}, size=len(labels))
+    hyp.explore(handprog.programs(lang), one, n, col.shard_seed('hand'))
+
+
 def run_shard(spec, col):
     quick = col.tier == 'quick'
     boot.init(spec['lang'])
+    handmade_leg(spec, col, 60 if quick else 1500)
     progcheck.run(spec, col, make_judge(col), n_seed=16 if quick else 400, n_tape=40 if quick else 1500, shrink=True)
 
 
